@@ -40,7 +40,11 @@ OPS = ['getitem', 'iter', 'subset', 'subsample', 'subset_pattern', 'subsample_pa
 BRANCHES = ['op:' + o for o in OPS] + [
     'rejected', 'nan_values', 'dup_labels', 'list_desc', 'array_desc', 'substring_labels',
     'concat:realign', 'subsample_pattern:copies', 'from_partials:padded', 'by_none', 'scalar_value',
-    'n_cond_1', 'leaf:nfrom', 'merge:heterogeneous_keys']
+    'n_cond_1', 'leaf:nfrom', 'merge:heterogeneous_keys',
+    'value:zero', 'value:tie', 'value:negative', 'value:inf', 'value:fraction',
+    'input:fortran', 'input:strided', 'input:float32', 'input:int',
+    'readout:derived', 'to_df:derived', 'dict:derived', 'matrices:derived', 'vectors:derived',
+    'to_df:after_subset_pattern', 'to_df:after_reorder', 'readout:after_subsample_pattern']
 ASSUMPTIONS = [
     'values are small integers, exactly representable in float64 and Rat',
     'admissible arguments: selection values of the descriptor\'s own kind; reorder/permute orders are '
@@ -82,7 +86,35 @@ def _val(x):
     x = float(x)
     if x != x:
         return None
+    if x in (float('inf'), float('-inf')):
+        return 'inf' if x > 0 else '-inf'
     return int(x) if x.is_integer() else x
+
+
+def _num(v):
+    """case encoding of a dissimilarity -> float (None = NaN, 'inf' / '-inf')"""
+    if v is None:
+        return np.nan
+    if isinstance(v, str):
+        return float(v)
+    return float(v)
+
+
+def obj_vals(o):
+    """the real dissimilarities of an initial object: `vals` if given (zeros, ties, negative
+    values, inf …), else the provenance tags themselves"""
+    return o['vals'] if 'vals' in o else o['vecs']
+
+
+def tag_map(case):
+    """provenance tag -> real value (the Lean model runs on the unique tags)"""
+    m = {}
+    for o in case['objs']:
+        for trow, vrow in zip(o['vecs'], obj_vals(o)):
+            for t, v in zip(trow, vrow):
+                if t is not None:
+                    m[t] = _val(_num(v))
+    return m
 
 
 def _col(v):
@@ -111,8 +143,16 @@ def make_real(o):
 
     def col(k, v):
         return np.array(v) if k in arr else list(v)
-    vecs = np.array([[np.nan if x is None else float(x) for x in row] for row in o['vecs']], dtype=float)
-    vecs = vecs.reshape(len(o['vecs']), -1)
+    vals = obj_vals(o)
+    vecs = np.array([[_num(x) for x in row] for row in vals], dtype=float).reshape(len(vals), -1)
+    dtype, layout = o.get('dtype', 'float64'), o.get('layout', 'C')
+    vecs = vecs.astype(dtype)
+    if layout == 'F':
+        vecs = np.asfortranarray(vecs)
+    elif layout == 'strided':       # a non-contiguous view into a larger buffer
+        big = np.zeros((vecs.shape[0] * 2, vecs.shape[1] * 2 + 1), dtype=vecs.dtype)
+        big[::2, 1::2] = vecs
+        vecs = big[::2, 1::2]
     return R.RDMs(vecs,
                   descriptors={k: (np.array(v) if isinstance(v, list) else v) for k, v in o.get('odesc', [])},
                   rdm_descriptors={k: col(k, v) for k, v in o.get('rdesc', [])},
@@ -306,10 +346,36 @@ def _sorted_rows(rows):
             for r in rows]
 
 
+def _untag(x, tm):
+    """replace provenance tags by the real values in a model dump (0 = the diagonal stays 0)"""
+    if isinstance(x, list):
+        return [_untag(y, tm) for y in x]
+    if x is None or x == 0:
+        return x
+    return tm.get(x, x)
+
+
+def _untag_obj(o, tm):
+    return None if o is None else dict(o, vecs=_untag(o['vecs'], tm))
+
+
 def model_result(case, answers):
     a = answers[0]
     if isinstance(a, dict) and 'model_error' in a:
         return a
+    tm = tag_map(case)
+    a = {'init': [_untag_obj(x, tm) for x in a['init']],
+         'steps': [dict(st, **({'store': [_untag_obj(x, tm) for x in st['store']]} if 'store' in st else {}))
+                   for st in a['steps']]}
+    for op, st in zip(case['ops'], a['steps']):
+        if st.get('out') is None:
+            continue
+        if op['op'] == 'iter':
+            st['out'] = [_untag_obj(x, tm) for x in st['out']]
+        elif op['op'] in ('matrices', 'vectors'):
+            st['out'] = _untag(st['out'], tm)
+        elif op['op'] == 'to_df':
+            st['out'] = [dict(r, v=_untag(r['v'], tm)) for r in st['out']]
     steps = []
     for op, st in zip(case['ops'], a['steps']):
         if op['op'] in READ_ONLY:
@@ -437,7 +503,9 @@ def _ref_ops(op):
 
 WHAT = {'frame': 'changed an object it was not called on',
         'raised': 'admissible call raised',
-        'wrong_result': 'result differs from the source values / descriptors / requested selection',
+        'wrong_result': 'result differs: an entry must be NaN exactly for two copies of one condition or an absent '
+                        'pair and equal the source value (0.0 included) otherwise; descriptors and the requested '
+                        'selection must be kept',
         'inconsistent': 'left an object whose vector form, square form, n_cond and descriptor lengths disagree'}
 
 
@@ -611,7 +679,35 @@ def gen_obj(rng, tags, n=None, nr=None, conds=None):
     n = n if n is not None else rng.choice([1, 2, 3, 3, 4, 4, 5, 6])
     nr = nr if nr is not None else rng.randint(1, 4)
     ln = n * (n - 1) // 2
-    vecs = [[(None if rng.random() < 0.08 else tags.next()) for _ in range(ln)] for _ in range(nr)]
+    dtype = rng.choices(['float64', 'float32', 'int64'], weights=[0.6, 0.2, 0.2])[0]
+    layout = rng.choices(['C', 'F', 'strided'], weights=[0.5, 0.3, 0.2])[0]
+    p_nan = 0.0 if dtype == 'int64' else 0.08
+    vecs = [[(None if rng.random() < p_nan else tags.next()) for _ in range(ln)] for _ in range(nr)]
+    # real values: the tag itself, or an exact zero, a repeated value, a negative value, a
+    # half-integer, an infinity (provenance stays readable through the tag of the position)
+    vals, seen = [], []
+    for row in vecs:
+        vrow = []
+        for t in row:
+            u = rng.random()
+            if t is None:
+                v = None
+            elif u < 0.12:
+                v = 0
+            elif u < 0.22 and seen:
+                v = rng.choice(seen)
+            elif u < 0.30:
+                v = -t
+            elif u < 0.34 and dtype != 'int64':
+                v = rng.choice(['inf', '-inf'])
+            elif u < 0.38 and dtype != 'int64':
+                v = t + 0.5
+            else:
+                v = t
+            if v is not None and not isinstance(v, str):
+                seen.append(v)
+            vrow.append(v)
+        vals.append(vrow)
     if conds is None:
         conds = rng.sample(POOL, n)
         if n >= 2 and rng.random() < 0.2:
@@ -632,7 +728,8 @@ def gen_obj(rng, tags, n=None, nr=None, conds=None):
     if rng.random() < 0.4:
         odesc.append(['run', rng.randint(1, 2)])
     arr = [k for k, _ in pdesc + rdesc if rng.random() < 0.5]
-    return {'vecs': vecs, 'odesc': odesc, 'rdesc': rdesc, 'pdesc': pdesc, 'arr': arr}
+    return {'vecs': vecs, 'vals': vals, 'dtype': dtype, 'layout': layout,
+            'odesc': odesc, 'rdesc': rdesc, 'pdesc': pdesc, 'arr': arr}
 
 
 def _ref_of(o):
@@ -822,14 +919,25 @@ def gen_case(rng, max_ops, weights=None, n_objs=None):
         op = gen_rejection(rng, sim) if rejection else gen_op(rng, sim, weights)
         if op is None:
             continue
+        target = None
         if op['op'] not in READ_ONLY:
+            before = len(sim)
             try:
                 sim, _ = ref.apply(sim, _ref_ops(op))
+                target = op['src'] if op['op'] in IN_PLACE else (len(sim) - 1 if len(sim) > before else None)
             except ref.Inadmissible:
                 # only the documented rejections (which the library raises on) are kept
                 if not (rejection or op['op'] in RAISES_WHEN_INADMISSIBLE):
                     continue
         ops.append(op)
+        if target is not None and rng.random() < 0.6:
+            # read the changed / new object out right away: long-form export, square and
+            # vector form, dictionary round trip, iteration
+            kind = rng.choices(['to_df', 'matrices', 'vectors', 'dict', 'iter'],
+                               weights=[0.4, 0.15, 0.15, 0.15, 0.15])[0]
+            ops.append({'op': kind, 'src': target})
+            if kind == 'dict':
+                sim, _ = ref.apply(sim, {'op': 'dict', 'src': target})
         if len(sim) > 14:
             break
     lens = [rng.randint(0, 60)] + [m * (m - 1) // 2 for m in (rng.randint(1, 200),)]
@@ -840,10 +948,12 @@ def fixed_cases():
     """a few hand-written sessions that reach the rarer paths on every run"""
     a = {'vecs': [[1, 2, 3, 4, 5, 6], [7, 8, None, 10, 11, 12]], 'odesc': [['task', 't1'], ['run', 1]],
          'rdesc': [['subj', ['s1', 's2']]],
-         'pdesc': [['conds', ['b', 'a', 'ab', 'c10']], ['cat', [1, 0, 1, 2]]], 'arr': ['conds']}
+         'pdesc': [['conds', ['b', 'a', 'ab', 'c10']], ['cat', [1, 0, 1, 2]]], 'arr': ['conds'],
+         'vals': [[0, 2, 2, -4, 0.5, 'inf'], [7, 0, None, 0, 7, -1]], 'layout': 'F'}
     b = {'vecs': [[21, 22, 23, 24, 25, 26]], 'odesc': [['task', 't1'], ['run', 2]],
          'rdesc': [['subj', ['s3']]],
-         'pdesc': [['conds', ['a', 'ab', 'c10', 'b']], ['cat', [0, 1, 2, 1]]], 'arr': []}
+         'pdesc': [['conds', ['a', 'ab', 'c10', 'b']], ['cat', [0, 1, 2, 1]]], 'arr': [],
+         'vals': [[0, 22, 0, 24, 22, 26]], 'dtype': 'int64', 'layout': 'strided'}
     c = {'vecs': [[31, 32, 33]], 'odesc': [['task', 't1'], ['run', 2]], 'rdesc': [['subj', ['s4']]],
          'pdesc': [['conds', ['c10', 'e', 'a']]], 'arr': ['subj']}
     yield {'objs': [a, b], 'lens': [0, 1, 3, 6, 10], 'ops': [
@@ -857,6 +967,9 @@ def fixed_cases():
     yield {'objs': [a], 'lens': [28], 'ops': [
         {'op': 'permute', 'src': 0, 'p': [1, 2, 3, 0]}, {'op': 'inverse_permute', 'src': 1},
         {'op': 'subsample_pattern', 'src': 0, 'by': 'cat', 'vals': [1, 1, 0]}, {'op': 'vectors', 'src': 3},
+        {'op': 'matrices', 'src': 3}, {'op': 'to_df', 'src': 3},
+        {'op': 'subset_pattern', 'src': 0, 'by': 'conds', 'vals': ['a', 'ab', 'c10']}, {'op': 'to_df', 'src': 4},
+        {'op': 'dict', 'src': 4}, {'op': 'to_df', 'src': 5},
         {'op': 'reorder', 'src': 3, 'ord': [4, 0, 3, 1, 2], 'as_array': True}, {'op': 'to_df', 'src': 3},
         {'op': 'sort_alpha', 'src': 3, 'by': 'conds', 'reindex': False}, {'op': 'iter', 'src': 3}]}
     d = {'vecs': [[41, 42, 43, 44, 45, 46]], 'odesc': [['task', 't2'], ['note', 'x']],
@@ -892,10 +1005,12 @@ def exhaustive_short(rng):
     tags = _Tags()
     a = {'vecs': [[tags.next() for _ in range(3)] for _ in range(2)], 'odesc': [['task', 't1']],
          'rdesc': [['subj', ['s1', 's2']]], 'pdesc': [['conds', ['b', 'a', 'ab']], ['cat', [1, 0, 1]]],
-         'arr': ['conds']}
+         'arr': ['conds'], 'layout': 'F'}
+    a['vals'] = [[0, 2, 2], [-4, 5, 0]]              # exact zeros, a tie, a negative value
     b = {'vecs': [[tags.next(), None, tags.next()]], 'odesc': [['task', 't2']],
          'rdesc': [['subj', ['s1']]], 'pdesc': [['conds', ['a', 'ab', 'b']], ['cat', [0, 1, 1]]],
-         'arr': ['subj']}
+         'arr': ['subj'], 'dtype': 'float32', 'layout': 'strided'}
+    b['vals'] = [[0, None, 'inf']]
     alphabet = []
     for s in (0, 1, 2):
         alphabet += [
@@ -966,7 +1081,47 @@ def features(case, impl):
             br.add('by_none')
         if op.get('scalar') and len(op.get('vals', [])) == 1:
             br.add('scalar_value')
+    n_init = len(case['objs'])
+    derived, made_by = set(), {}
+    n_store = n_init
+    for op in case['ops']:
+        if op['op'] in IN_PLACE:
+            derived.add(op.get('src'))
+            made_by[op.get('src')] = op['op']
+        elif op['op'] in READ_ONLY:
+            if op['src'] in derived or op['src'] >= n_init:
+                br.add('readout:derived')
+                br.add(op['op'] + ':derived')
+                how = made_by.get(op['src'])
+                if op['op'] == 'to_df' and how == 'subset_pattern':
+                    br.add('to_df:after_subset_pattern')
+                if op['op'] == 'to_df' and how in ('reorder', 'sort_alpha', 'sort_list'):
+                    br.add('to_df:after_reorder')
+                if how == 'subsample_pattern':
+                    br.add('readout:after_subsample_pattern')
+        else:
+            # a value-returning operation (its slot is approximate when an earlier one was rejected;
+            # the tag is only used for coverage accounting)
+            if op['op'] == 'dict' and (op['src'] in derived or op['src'] >= n_init):
+                br.add('dict:derived')
+                br.add('readout:derived')
+            made_by[n_store] = op['op']
+            n_store += 1
     for o in case['objs']:
+        flat = [x for v in obj_vals(o) for x in v if x is not None]
+        nums = [x for x in flat if not isinstance(x, str)]
+        if any(x == 0 for x in nums):
+            br.add('value:zero')
+        if len(set(map(repr, flat))) < len(flat):
+            br.add('value:tie')
+        if any(x < 0 for x in nums):
+            br.add('value:negative')
+        if any(isinstance(x, str) for x in flat):
+            br.add('value:inf')
+        if any(isinstance(x, float) and not float(x).is_integer() for x in nums):
+            br.add('value:fraction')
+        br.add({'F': 'input:fortran', 'strided': 'input:strided'}.get(o.get('layout', 'C'), 'input:c_order'))
+        br.add({'float32': 'input:float32', 'int64': 'input:int'}.get(o.get('dtype', 'float64'), 'input:float64'))
         if any(x is None for v in o['vecs'] for x in v):
             br.add('nan_values')
         for k, v in o['pdesc'] + o['rdesc']:
@@ -1060,10 +1215,15 @@ def shrink(case, still_fails):
                 break
     # fewer RDMs / simpler descriptors in the initial objects
     for i, ob in enumerate(case['objs']):
-        for key in ('arr',):
-            if ob.get(key):
+        for key, simple in (('arr', []), ('layout', 'C'), ('dtype', 'float64')):
+            if ob.get(key) not in (None, simple):
                 cand = copy.deepcopy(case)
-                cand['objs'][i][key] = []
+                cand['objs'][i][key] = simple
                 if still_fails(cand):
                     case = cand
+        if 'vals' in ob:
+            cand = copy.deepcopy(case)
+            del cand['objs'][i]['vals']
+            if still_fails(cand):
+                case = cand
     return case
